@@ -6,6 +6,7 @@ use super::super::{
     meta_subscriber::MoveSubscriber,
     meta_container::MoveContainer,
 };
+#[cfg(not(feature = "verif"))]
 use std::{
     fmt::Debug,
     ptr,
@@ -18,6 +19,10 @@ use std::{
     cell::UnsafeCell,
     mem::ManuallyDrop,
 };
+#[cfg(feature = "verif")]
+use std::{fmt::Debug, ptr, sync::atomic::Ordering::Relaxed, pin::Pin, num::NonZeroU32, cell::UnsafeCell, mem::ManuallyDrop};
+#[cfg(feature = "verif")]
+use crate::verif::AtomicBool;
 
 
 /// Basis for multiple producer / multiple consumer queues using a quick-and-dirty (but fast)
@@ -54,6 +59,16 @@ FullSyncMove<SlotType, BUFFER_SIZE> {
         // if !BUFFER_SIZE.is_power_of_two() {
         //     panic!("FullSyncMeta: BUFFER_SIZE must be a power of 2, but {BUFFER_SIZE} was provided.");
         // }
+        #[cfg(feature = "verif")]
+        if crate::verif::sequence_origin() != 0 {
+            let origin = crate::verif::sequence_origin();
+            return Self {
+                head:              UnsafeCell::new(origin),
+                tail:              UnsafeCell::new(origin),
+                concurrency_guard: AtomicBool::new(false),
+                buffer:            UnsafeCell::new(Box::pin([0; BUFFER_SIZE].map(|_| ManuallyDrop::new(slot_initializer())))),
+            }
+        }
         Self {
             head:              UnsafeCell::new(0),
             tail:              UnsafeCell::new(0),
@@ -102,7 +117,13 @@ FullSyncMove<SlotType, BUFFER_SIZE> {
 
     #[inline(always)]
     fn available_elements_count(&self) -> usize {
+        #[cfg(feature = "verif")]
+        crate::verif::yield_point_at("fsm.len.tail", &self.concurrency_guard as *const AtomicBool as usize);
         let tail = unsafe { &* self.tail.get() };
+        #[cfg(feature = "verif")]
+        let tail = &{*tail};
+        #[cfg(feature = "verif")]
+        crate::verif::yield_point_at("fsm.len.head", &self.concurrency_guard as *const AtomicBool as usize);
         let head = unsafe { &* self.head.get() };
         tail.overflowing_sub(*head).0 as usize
     }
